@@ -24,7 +24,7 @@ structure CipType where
   tagType : Nat
   size : Nat
   kind : Kind
-deriving Repr
+deriving DecidableEq, Repr
 
 inductive Val
   | int (v : Int)
@@ -133,51 +133,87 @@ def checkCounts (fragment : Bool) (size : Nat) (op : OpD) (ndata : Nat) : Except
           let beg := byte / (size : Int)
           if beg + (ndata : Int) ≤ el then pure op else throw Err.reject
 
+/-- `list( map( cast, val_list ))`: the first failing value decides -/
+def mapExcept {α β ε : Type} (f : α → Except ε β) : List α → Except ε (List β)
+  | [] => Except.ok []
+  | a :: as =>
+    match f a with
+    | Except.error e => Except.error e
+    | Except.ok b =>
+      match mapExcept f as with
+      | Except.error e => Except.error e
+      | Except.ok bs => Except.ok (b :: bs)
+
+/-- `if '=' in tag: tag,val = [s.strip() for s in tag.split( '=', 1 )]` -/
+def splitEq (text : Str) : Str × Str × Bool :=
+  match splitFirst '=' text with
+  | some (t, v) => (strip t, strip v, true)
+  | none => (text, [], false)
+
+/-- `if '+' in tag: tag,off = [s.strip() for s in tag.split( '+', 1 )]; if off: int( off )` -/
+def splitOff (tag : Str) : Except Err (Str × Option Int) :=
+  match splitFirst '+' tag with
+  | some (t, o) =>
+    if strip o = [] then Except.ok (strip t, none)
+    else match pyInt10 (strip o) with
+      | some v => Except.ok (strip t, some v)
+      | none => Except.error Err.reject
+  | none => Except.ok (tag, none)
+
+/-- REAL when a '.' occurs among the values, else `CIP_TYPES[int_type.strip().upper()]` -/
+def defaultType (types : List CipType) (intType val : Str) : Except Err CipType :=
+  if val.contains '.' then
+    match lookupType types strREAL with
+    | some t => Except.ok t
+    | none => Except.error Err.reject
+  else
+    match lookupType types (upper (strip intType)) with
+    | some t => Except.ok t
+    | none => Except.error Err.reject
+
+/-- the optional `(TYPE)` in front of the values -/
+def castSplit (types : List CipType) (ty0 : CipType) (val : Str) : Except Err (CipType × Str) :=
+  if startsWith (strip val) '(' && val.contains ')' then
+    match splitFirst ')' val with
+    | some (typ, rest) =>
+      match splitFirst '(' typ with
+      | some (_, name) =>
+        match lookupType types (upper (strip name)) with
+        | some t => Except.ok (t, rest)
+        | none => Except.error Err.reject
+      | none => Except.error Err.reject
+    | none => Except.error Err.reject
+  else Except.ok (ty0, val)
+
+def parseValues (types : List CipType) (fragment : Bool) (intType : Str) (op : OpD) (val : Str) :
+    Except Err OpD :=
+  match defaultType types intType val with
+  | Except.error e => Except.error e
+  | Except.ok ty0 =>
+    match castSplit types ty0 val with
+    | Except.error e => Except.error e
+    | Except.ok (ty, rest) =>
+      match csvRow rest with
+      | Except.error e => Except.error e
+      | Except.ok toks =>
+        match mapExcept (castVal ty.kind) toks with
+        | Except.error e => Except.error e
+        | Except.ok data =>
+          checkCounts fragment ty.size { op with tagType := some ty.tagType, data := some data }
+            data.length
+
 /-- `client.parse_operations( [tag], fragment=..., int_type=... )` for a `str` tag -/
 def parseOperation (types : List CipType) (fragment : Bool) (intType : Str) (text : Str) :
-    Except Err OpD := do
-  let (tag, val, write) :=
-    match splitFirst '=' text with
-    | some (t, v) => (strip t, strip v, true)
-    | none => (text, [], false)
-  let (tag, offset) ←
-    match splitFirst '+' tag with
-    | some (t, o) =>
-      let o := strip o
-      if o = [] then pure (strip t, none)
-      else match pyInt10 o with
-        | some v => pure (strip t, some v)
-        | none => throw Err.reject
-    | none => pure (tag, none)
-  let (segs, _, cnt) ← parsePathElements tag none none
-  let op : OpD := { write := write, offset := offset, path := segs, elements := cnt }
-  if val = [] then pure op
-  else do
-    let ty0 ←
-      if val.contains '.' then
-        match lookupType types strREAL with
-        | some t => pure t
-        | none => throw Err.reject
-      else
-        match lookupType types (upper (strip intType)) with
-        | some t => pure t
-        | none => throw Err.reject
-    let (ty, val) ←
-      if startsWith (strip val) '(' && val.contains ')' then
-        match splitFirst ')' val with
-        | some (typ, rest) =>
-          match splitFirst '(' typ with
-          | some (_, name) =>
-            match lookupType types (upper (strip name)) with
-            | some t => pure (t, rest)
-            | none => throw Err.reject
-          | none => throw Err.reject
-        | none => throw Err.reject
-      else pure (ty0, val)
-    let toks ← csvRow val
-    let data ← toks.mapM (castVal ty.kind)
-    let op := { op with tagType := some ty.tagType, data := some data }
-    checkCounts fragment ty.size op data.length
+    Except Err OpD :=
+  match splitOff (splitEq text).1 with
+  | Except.error e => Except.error e
+  | Except.ok (tag, offset) =>
+    match parsePathElements tag none none with
+    | Except.error e => Except.error e
+    | Except.ok (segs, _, cnt) =>
+      let op : OpD := { write := (splitEq text).2.2, offset := offset, path := segs, elements := cnt }
+      if (splitEq text).2.1 = [] then Except.ok op
+      else parseValues types fragment intType op (splitEq text).2.1
 
 /-- `get_attribute.attribute_operations`: the service chosen from the last path segment -/
 inductive AttrMethod | getAll | getSingle | setSingle
